@@ -334,6 +334,8 @@ impl<Aux> Vm<'_, Aux> {
     }
 
     fn _run(&mut self, instr_ptr: &mut usize) -> ExecutionResult<()> {
+        #[cfg(feature = "verif-hooks")]
+        let _verif_guard = crate::verif::RunGuard::enter();
         let program: &CaoCompiledProgram = unsafe {
             let program = self.runtime_data.current_program;
             assert!(!program.is_null());
@@ -369,6 +371,8 @@ impl<Aux> Vm<'_, Aux> {
                 ));
             }
             let instr: u8 = unsafe { *bytecode_ptr.add(*instr_ptr) };
+            #[cfg(feature = "verif-hooks")]
+            crate::verif::instr(false, instr, *instr_ptr, &self.runtime_data);
             let instr: Instruction = unsafe { transmute(instr) };
             let src_ptr = *instr_ptr;
             *instr_ptr += 1;
@@ -751,6 +755,8 @@ impl<Aux> Vm<'_, Aux> {
                     })?;
                 }
             }
+            #[cfg(feature = "verif-hooks")]
+            crate::verif::instr(true, instr as u8, src_ptr, &self.runtime_data);
             debug!("Stack: {}", self.runtime_data.value_stack);
         }
 
